@@ -19,6 +19,7 @@ from typing import Dict, List, Optional, Tuple
 
 REF_PATH = os.path.join(os.path.dirname(os.path.dirname(os.path.abspath(__file__))), "reference", "locals.json")
 _REF: Optional[Dict[str, List[List[str]]]] = None
+_NF_CACHE: Dict[Tuple[str, str], str] = {}
 
 
 def _ref() -> Dict[str, List[List[str]]]:
@@ -132,48 +133,156 @@ def iter_functions(tree: ast.AST):
     yield from rec(tree, [])
 
 
+def _all_quals(tree: ast.AST) -> List[str]:
+    out = []
+
+    def rec(node, stack):
+        for ch in ast.iter_child_nodes(node):
+            if isinstance(ch, (ast.FunctionDef, ast.AsyncFunctionDef)):
+                out.append(".".join(stack + [ch.name]))
+            elif isinstance(ch, ast.ClassDef):
+                rec(ch, stack + [ch.name])
+            else:
+                rec(ch, stack)
+    rec(tree, [])
+    return out
+
+
+def _mapping(fn: ast.AST, rshapes) -> Dict[str, str]:
+    cur = shapes(fn)
+    a = [c[1] for c in cur]
+    b = [r[1] for r in rshapes]
+    mapping: Dict[str, str] = {}
+    sm = difflib.SequenceMatcher(a=a, b=b, autojunk=False)
+    for blk in sm.get_matching_blocks():
+        for k in range(blk.size):
+            cn, rn = cur[blk.a + k][0], rshapes[blk.b + k][0]
+            if cn != rn:
+                mapping[cn] = rn
+    if not mapping:
+        return {}
+    # never rename onto a name that stays in use by another (unmapped) local or a parameter
+    cur_names = {c[0] for c in cur}
+    params = {x.arg for x in fn.args.args + fn.args.kwonlyargs}
+    safe = {c: r for c, r in mapping.items() if (r not in cur_names or r in mapping) and r not in params}
+    # a chain a->b, b->c is fine (simultaneous substitution); a->b with b unmapped was excluded above
+    if len(set(safe.values())) != len(safe):
+        return {}
+    return safe
+
+
+def _rename(fn: ast.AST, safe: Dict[str, str]) -> int:
+    renamed = 0
+    for n in ast.walk(fn):
+        if isinstance(n, ast.Name) and n.id in safe:
+            n.id = safe[n.id]
+            renamed += 1
+        elif isinstance(n, ast.ExceptHandler) and n.name in safe:
+            n.name = safe[n.name]
+    return renamed
+
+
 def normalise(tree: ast.AST, rel: str, src: Optional[str] = None) -> int:
-    """Rename locals of the functions of `tree` (in place) to the reference names where their definitions align. -> #renamed."""
+    """Bring the functions of `tree` (in place) back to the reference form where a behaviour-preserving rewrite separates them.
+    Per function that is not textually the pinned one, cheapest first: (1) locals renamed to the reference names where their
+    definitions align; (2) normal form (sa/nf.py) equal to the pinned function's -> the pinned function is substituted; (3) piecewise
+    canonicalisation (sa/canon.py: new locals substituted, inlined locals re-bound, tests in their reference form), then (1) and (2)
+    once more. New private helpers of a class are substituted at their call sites before all that. -> number of changes."""
+    from . import canon
     ref = _ref().get(rel)
     if not ref:
         return 0
     if src is not None and ref.get("__sha1__") == hashlib.sha1(src.encode("utf-8")).hexdigest():
         return 0  # the file is the one the reference was taken from
-    renamed = 0
-    for q, fn in iter_functions(tree):
+    changed = 0
+    sigs = _ref().get("__sigs__", {})
+    debug = os.environ.get("VERIF_CANON_DEBUG") == "1"
+    use_canon = os.environ.get("VERIF_NO_CANON") != "1"
+    use_nf = os.environ.get("VERIF_NO_NF") != "1"
+    rfuncs = set(ref.get("__functions__", []))
+    if rfuncs and use_canon:
+        try:
+            changed += canon.inline_new_helpers(tree, rfuncs)
+        except Exception:
+            if debug:
+                raise
+
+    def nf_equal(q, fn, entry) -> bool:
+        if not use_nf or entry.get("src") is None:
+            return False
+        from . import nf
+        try:
+            want = _NF_CACHE.get((rel, q))
+            if want is None:
+                want = _NF_CACHE[(rel, q)] = nf.nf_text(ast.parse(entry["src"]).body[0], sigs)
+            return nf.nf_text(fn, sigs) == want
+        except Exception:
+            if debug:
+                raise
+            return False
+
+    def substitute(fn, entry) -> bool:
+        rfn = ast.parse(entry["src"]).body[0]
+        ast.increment_lineno(rfn, max(0, fn.lineno - rfn.lineno))
+        rfn.decorator_list = fn.decorator_list
+        return _swap(tree, fn, rfn)
+
+    for q, fn in list(iter_functions(tree)):
         entry = ref.get(q)
         if not entry:
             continue
+        rsrc = entry.get("src")
+        if rsrc is not None and ast.unparse(fn) == rsrc:
+            continue  # textually the pinned function
         rshapes = entry.get("locals", [])
-        renamed += _canon_syntax(fn, entry)
-        if function_locals(fn) == [r[0] for r in rshapes]:
+        rnames = {r[0] for r in rshapes}
+        # (1) a consistent rename of locals and nothing else
+        if function_locals(fn) != [r[0] for r in rshapes]:
+            safe = _mapping(fn, rshapes)
+            if safe:
+                changed += _rename(fn, safe)
+            if rsrc is not None and ast.unparse(fn) == rsrc:
+                continue
+        # (2) the pinned function written differently
+        if nf_equal(q, fn, entry):
+            changed += 1 if substitute(fn, entry) else 0
             continue
-        cur = shapes(fn)
-        a = [c[1] for c in cur]
-        b = [r[1] for r in rshapes]
-        mapping: Dict[str, str] = {}
-        sm = difflib.SequenceMatcher(a=a, b=b, autojunk=False)
-        for blk in sm.get_matching_blocks():
-            for k in range(blk.size):
-                cn, rn = cur[blk.a + k][0], rshapes[blk.b + k][0]
-                if cn != rn:
-                    mapping[cn] = rn
-        if not mapping:
+        # (3) piecewise, then once more
+        if not use_canon:
             continue
-        # never rename onto a name that stays in use by another (unmapped) local or a parameter
-        cur_names = {c[0] for c in cur}
-        params = {x.arg for x in fn.args.args + fn.args.kwonlyargs}
-        safe = {c: r for c, r in mapping.items() if (r not in cur_names or r in mapping) and r not in params}
-        # a chain a->b, b->c is fine (simultaneous substitution); a->b with b unmapped was excluded above
-        if len(set(safe.values())) != len(safe):
-            continue
-        for n in ast.walk(fn):
-            if isinstance(n, ast.Name) and n.id in safe:
-                n.id = safe[n.id]
-                renamed += 1
-            elif isinstance(n, ast.ExceptHandler) and n.name in safe:
-                n.name = safe[n.name]
-    return renamed
+        n_canon = 0
+        for step in ("locals", "rehoist", "tests", "locals2"):
+            try:
+                if step in ("locals", "locals2"):
+                    m = _mapping(fn, rshapes) if function_locals(fn) != [r[0] for r in rshapes] else {}
+                    n_canon += canon.inline_new_locals(fn, rnames, keep=set(m))
+                elif step == "rehoist":
+                    n_canon += canon.rehoist_locals(fn, entry, _masked, function_locals)
+                else:
+                    n_canon += canon.canon_tests(fn, entry)
+            except Exception:
+                if debug:
+                    raise
+        changed += n_canon
+        if function_locals(fn) != [r[0] for r in rshapes]:
+            safe = _mapping(fn, rshapes)
+            if safe:
+                changed += _rename(fn, safe)
+                n_canon += 1
+        if n_canon and rsrc is not None and ast.unparse(fn) != rsrc and nf_equal(q, fn, entry):
+            changed += 1 if substitute(fn, entry) else 0
+    return changed
+
+
+def _swap(tree: ast.AST, old: ast.AST, new: ast.AST) -> bool:
+    for p in ast.walk(tree):
+        b = getattr(p, "body", None)
+        if isinstance(b, list):
+            for k, ch in enumerate(b):
+                if ch is old:
+                    b[k] = new
+                    return True
+    return False
 
 
 FLIP = {ast.Lt: ast.Gt, ast.Gt: ast.Lt, ast.LtE: ast.GtE, ast.GtE: ast.LtE, ast.Eq: ast.Eq, ast.NotEq: ast.NotEq}
@@ -251,8 +360,30 @@ def build_reference(repo_modules) -> Dict[str, Dict[str, List[List[str]]]]:
         for q, fn in iter_functions(tree):
             s = shapes(fn)
             t, c, b = syntax_sets(fn)
-            if s or t or c or b:
-                d[q] = {"locals": [[n, sh] for n, sh in s], "tests": sorted(t), "compares": sorted(c), "boolops": sorted(b)}
+            ifs, quants = [], set()
+            from .canon import _ends_in_jump
+            for n in ast.walk(fn):
+                if isinstance(n, ast.If):
+                    ifs.append([ast.unparse(n.test), bool(n.orelse), _ends_in_jump(n.body)])
+                if isinstance(n, ast.Call) and isinstance(n.func, ast.Name) and n.func.id in ("all", "any"):
+                    quants.add(ast.unparse(n))
+                if isinstance(n, ast.UnaryOp) and isinstance(n.op, ast.Not):
+                    quants.add(ast.unparse(n))
+            d[q] = {"locals": [[n, sh] for n, sh in s], "tests": sorted(t), "compares": sorted(c), "boolops": sorted(b),
+                    "ifs": ifs, "quants": sorted(quants), "src": ast.unparse(fn)}
+        d["__functions__"] = _all_quals(tree)
         if len(d) > 1:
             out[rel] = d
+    # parameter lists of repository functions, by bare name, where every definition of that name agrees
+    sigs: Dict[str, List[List[str]]] = {}
+    for rel, tree, src in repo_modules:
+        for n in ast.walk(tree):
+            if isinstance(n, (ast.FunctionDef, ast.AsyncFunctionDef)) and not n.args.vararg and not n.args.kwarg and not n.args.posonlyargs:
+                ps = [a.arg for a in n.args.args]
+                if ps and ps[0] in ("self", "cls"):
+                    ps = ps[1:]
+                sigs.setdefault(n.name, []).append(ps)
+            elif isinstance(n, (ast.FunctionDef, ast.AsyncFunctionDef)):
+                sigs.setdefault(n.name, []).append(["*"])
+    out["__sigs__"] = {k: v[0] for k, v in sigs.items() if all(x == v[0] for x in v) and v[0] != ["*"] and v[0] and not k.startswith("__")}
     return out
